@@ -19,6 +19,8 @@ package verifharness
 //   upd <raw> <canon> <chain> <hdrOK> <newTss|none>          -> ok <store diff> | rej
 //   recv <raw> <canon> <src> <dst> <seq> <hasData> <proofOK> -> ok <store diff> rl=<ack relayer field> | rej
 //   ack <raw> <canon> <src> <dst> <seq> <hasData> <genuine> <proofOK> <ackRelayer> <ackDecodes> <evmOK> -> ok <store diff> | rej
+//   recv / ack may end with  pf=<hex>  : the bytes put into ProofCommitment / ProofAcked when the gating chain is not S
+//                                        (TSS client or no client); default is the single byte 01
 // store diff tokens: +R:/+A:/~A:/+C:/-C:<src>/<dst>/<seq>  ~K:<chain>   (anything else: ?<key>)
 
 import (
@@ -569,6 +571,15 @@ func (w *c06World) apply1(r *Rec, f []string) string {
 
 func (w *c06World) applyMsg(r *Rec, f []string) string {
 	T := w.T
+	var pf []byte // explicit proof bytes of the message (nil = default)
+	hasPf := false
+	if l := f[len(f)-1]; strings.HasPrefix(l, "pf=") {
+		pf, hasPf = unhx(l[3:]), true
+		if pf == nil {
+			pf = []byte{}
+		}
+		f = f[:len(f)-1]
+	}
 	s := func(i int) string { return string(unhx(f[i])) }
 	raw, canon := s(1), s(2)
 	acct := c06AcctOf(canon)
@@ -609,6 +620,9 @@ func (w *c06World) applyMsg(r *Rec, f []string) string {
 			return "bad-op"
 		}
 		proof := []byte{1}
+		if hasPf {
+			proof = pf
+		}
 		ph := clienttypes.NewHeight(0, 1)
 		if src == w.S.ChainID {
 			ph = w.proofH
@@ -654,6 +668,9 @@ func (w *c06World) applyMsg(r *Rec, f []string) string {
 			return "flag-mismatch evmOK"
 		}
 		proof := []byte{1}
+		if hasPf {
+			proof = pf
+		}
 		ph := clienttypes.NewHeight(0, 1)
 		if dst == w.S.ChainID {
 			ph = w.proofH
@@ -699,6 +716,34 @@ func (w *c06World) applyMsg(r *Rec, f []string) string {
 	tag := kind + "."
 	lr, registered := w.lastReg[raw]
 	regForChain := registered && c06Contains(lr.chains, chain)
+	if isTss && kind != "upd" {
+		// what the message itself carries as proof (irrelevant for a TSS client: the signer is the proof) x who signs
+		pk := "other-bytes"
+		switch {
+		case len(pf) == 0 && hasPf:
+			pk = "empty"
+		case !hasPf:
+			pk = "default"
+		case string(pf) == tssAddr:
+			pk = "is-tss-address"
+		case string(pf) == raw:
+			pk = "is-signer-address"
+		case c06SameAccount(string(pf), string(pf)):
+			pk = "is-another-address"
+		}
+		from := "unregistered-account"
+		switch {
+		case c06SameAccount(raw, tssAddr):
+			from = "tss-account"
+		case regForChain:
+			from = "registered-relayer"
+		}
+		r.Count("tss." + kind + ".proof-" + pk + ".from-" + from)
+		if pk == "is-tss-address" && from != "tss-account" {
+			r.Count("tss.msg.proof-is-tss-address.from-other-account")
+			r.Count("tss." + kind + ".proof-is-tss-address.from-other-account")
+		}
+	}
 	if !accepted {
 		r.Count(tag + "rejected")
 		switch { // which of the property's conditions the attempt lacked (oracle-side mirror, for the distribution only)
